@@ -226,7 +226,13 @@ def enc_header(body_size, props, channel, legacy=False, weight=0):
 
 
 def enc_body(value, channel):
-    return envelope(3, channel, bytes(value))
+    # the payload is the object's BYTES (tobytes() of a buffer of multi-byte
+    # items or of several dimensions), never bytes(len) or an item count
+    if isinstance(value, (bytes, bytearray)):
+        raw = bytes(value)
+    else:
+        raw = memoryview(value).tobytes()
+    return envelope(3, channel, raw)
 
 
 def enc_protocol_header(major, minor, revision):
